@@ -587,6 +587,7 @@ type FuncSpec struct {
 	AfterWait []*Clause      // fork/join: assumed after sync.WaitGroup.Wait returns
 	GhostInits []GhostInit
 	GhostSets  []GhostSet
+	OnSend     []*Clause // obligations at every channel send of the function (`value` is what is sent)
 	Preserves []*Clause // closure contracts: requires + ensures + carried across extern calls that take the closure as a callback
 	Chooses   []ChooseClause // witnesses of existential postconditions of callees
 	Assumes2  []*Clause      // `assumes`: taken for granted at entry, NOT checked at call sites (listed in the evidence)
@@ -680,7 +681,7 @@ func newSpecSet() *SpecSet {
 var clauseKeywords = map[string]bool{"func": true, "requires": true, "ensures": true, "modifies": true,
 	"loop": true, "inline": true, "props": true, "arith": true, "pure": true, "function": true, "writes": true,
 	"type": true, "spec": true, "lemma": true, "global": true, "trusted": true, "ghost": true, "allocs": true,
-	"skip": true, "end": true, "uses": true, "ghostvar": true, "prove": true, "claim": true, "given": true, "ghostparam": true, "callghost": true, "access": true, "callreq": true, "afterwait": true, "lockinv": true, "guarantee": true, "assumes": true, "choose": true, "ghostinit": true, "preserves": true, "ghostset": true}
+	"skip": true, "end": true, "uses": true, "ghostvar": true, "prove": true, "claim": true, "given": true, "ghostparam": true, "callghost": true, "access": true, "callreq": true, "afterwait": true, "lockinv": true, "guarantee": true, "assumes": true, "choose": true, "ghostinit": true, "preserves": true, "ghostset": true, "onsend": true}
 
 // specLines extracts the //@ payload lines of a Go file, or all lines of a
 // .spec file.
@@ -1006,10 +1007,30 @@ func (ss *SpecSet) parseFile(path, pkg string) error {
 				cur.CallReqs = map[string][]*Clause{}
 			}
 			cur.CallReqs[f[0]] = append(cur.CallReqs[f[0]], &Clause{Kind: "callreq", Src: rest[k+10:], E: e, Line: where})
+		case "onsend":
+			if cur == nil || !strings.HasPrefix(rest, "requires ") {
+				return fail(fmt.Errorf("onsend requires <expr>"))
+			}
+			{
+				e, err := parseExpr(rest[9:])
+				if err != nil {
+					return fail(err)
+				}
+				cur.OnSend = append(cur.OnSend, &Clause{Kind: "onsend", Src: rest[9:], E: e, Line: where})
+			}
 		case "ghostset":
 			{
 				f := strings.Fields(rest)
 				k := strings.Index(rest, " = ")
+				if cur != nil && k >= 0 && len(f) >= 4 && f[1] == "=" && strings.HasSuffix(strings.TrimSpace(rest), " onsend") {
+					body := strings.TrimSuffix(strings.TrimSpace(rest), " onsend")
+					e, err := parseExpr(body[k+3:])
+					if err != nil {
+						return fail(err)
+					}
+					cur.GhostSets = append(cur.GhostSets, GhostSet{Var: f[0], OnStore: "@send", E: e, Src: rest, Line: where})
+					continue
+				}
 				if k3 := strings.LastIndex(rest, " onstore "); cur != nil && k3 > k && k >= 0 && len(f) >= 5 && f[1] == "=" {
 					// ghostset <ghostvar> = <expr> onstore <var> [in loop <n>]
 					tail := strings.Fields(rest[k3+9:])
